@@ -4,7 +4,7 @@ EXTENDS Library, Json
 
 CONSTANTS Family, MaxCrates, MaxTracks, MaxOps, WithTracks,
           OpNames,      \* names used as arguments (subset of Names)
-          CrateOpSet,   \* "all" | "basic" (create_root, create_sub, remove_crate only)
+          CrateOpSet,   \* "all" | "basic" (create_root, create_sub, remove_crate only) | "move" (create_root, create_sub, set_parent only)
           TrackOpSet,   \* "all" | "mem" (add_track / remove_track_from / clear_tracks only)
           Pre           \* "none" | "diverge" | "rich": start after a preamble that makes crate, track and
                         \* membership-row ids diverge (what a fresh-database test never has)
@@ -48,7 +48,9 @@ MCInit ==
 CrateOps ==
     \/ \E n \in OpNames : NextId <= MaxCrates /\ CreateRoot(n, NextId)
     \/ \E c \in live, n \in OpNames : NextId <= MaxCrates /\ CreateSub(c, n, NextId)
-    \/ \E c \in live : RemoveCrate(c)
+    \/ CrateOpSet # "move" /\ \E c \in live : RemoveCrate(c)
+    \* "move": creation and re-parenting only - deeper forests (4 crates) moved around twice within the same number of calls
+    \/ CrateOpSet = "move" /\ \E c \in live, p \in live \cup {Root} : SetParent(c, p)
     \/ /\ CrateOpSet = "all"
        /\ \/ \E n \in OpNames, a \in live : NextId <= MaxCrates /\ CreateRootAfter(n, a, NextId)
           \/ \E c \in live, n \in OpNames, a \in live : NextId <= MaxCrates /\ CreateSubAfter(c, n, a, NextId)
